@@ -26,11 +26,11 @@
  *  D <id> <contenthex> <dictID> <r0.r1.r2|->
  *        zstd-format dictionary (magic, entropy tables, content) built by ZDICT_finalizeDictionary from the content, the three
  *        repeat offsets at the end of its header optionally replaced   -> <id> OK <dicthex> hs=<header size>
- *  K <id> <params> <srchex>
- *        ZSTD_generateSequences(c, q, bound, src); the array is then filled with a sentinel; ZSTD_compress2(c, src) on the SAME
+ *  K <id> <params> <srchex> [<outcap>]
+ *        ZSTD_generateSequences(c, q, outcap (default: bound), src) (fails when outcap is too small); the array is then filled with a sentinel; ZSTD_compress2(c, src) on the SAME
  *        context and on a fresh one  -> <id> OK gen=<n|Ename> sentinel=<intact|written@k> c2=<size|Ename> fresh=<size|Ename> same=<0|1> d=<..>
  *  Z <id> <params> <dictmode> <dicthex|-> <seqs1|-> <src1hex|-> <seqs2|-> <src2hex|->
- *        call history on ONE context: r1 = ZSTD_compressSequences(seqs1, src1) (may fail), setp = ZSTD_CCtx_setParameter(checksumFlag, 0)
+ *        call history on ONE context: r1 = ZSTD_compressSequences(seqs1, src1) (may fail), setp = ZSTD_CCtx_setParameter(checksumFlag, its current value)
  *        right after it, r2 = ZSTD_compressSequences(seqs2, src2), c2 = ZSTD_compress2(src2); f2 / fc = the same two calls on fresh
  *        contexts  -> <id> OK r1=<size|Ename> setp=<ok|Ename> r2=<size|Ename> r2same=<0|1> d2=<..> c2=<size|Ename> c2same=<0|1>
  *  R <id> <params> <dictmode> <dicthex|-> <script> <srchex|-> <cap|0>
@@ -301,7 +301,8 @@ static void pres(const char* k, size_t r) { printf(" %s=", k); if (ZSTD_isError(
 static void cmd_K(char** t) {
     const char* id = t[1]; size_t n; unsigned char* x = unhex(t[3], &n);
     size_t bound = ZSTD_compressBound(n) + 64; unsigned char* o1 = (unsigned char*)malloc(bound); unsigned char* o2 = (unsigned char*)malloc(bound);
-    size_t cap = ZSTD_sequenceBound(n) + 8, i, g, r1, r2, hit = (size_t)-1; ZSTD_Sequence* q = (ZSTD_Sequence*)malloc(cap * sizeof(ZSTD_Sequence));
+    size_t cap = (t[4] && atoi(t[4]) > 0) ? (size_t)atoi(t[4]) : ZSTD_sequenceBound(n) + 8, i, g, r1, r2, hit = (size_t)-1;
+    ZSTD_Sequence* q = (ZSTD_Sequence*)malloc(cap * sizeof(ZSTD_Sequence));
     ZSTD_CCtx* c = ZSTD_createCCtx(); ZSTD_CCtx* f = ZSTD_createCCtx();
     apply_cparams(c, t[2]); apply_cparams(f, t[2]);
     g = ZSTD_generateSequences(c, q, cap, x, n);
@@ -328,7 +329,8 @@ static void cmd_Z(char** t) {
     apply_cparams(c, t[2]); apply_cparams(f, t[2]);
     give_dict(c, t[3], d, dn);
     r1 = ZSTD_compressSequences(c, o1, b1, q1, nq1, x1, n1);
-    sp = ZSTD_CCtx_setParameter(c, ZSTD_c_checksumFlag, 0);
+    {   int cur = 0; ZSTD_CCtx_getParameter(c, ZSTD_c_checksumFlag, &cur);
+        sp = ZSTD_CCtx_setParameter(c, ZSTD_c_checksumFlag, cur); }     /* same value: only asks whether a frame parameter may be set now */
     r2 = ZSTD_compressSequences(c, o2, b2, q2, nq2, x2, n2);
     {   ZSTD_CDict* keep = g_cdict; g_cdict = NULL;            /* the fresh context gets its own CDict */
         give_dict(f, t[3], d, dn);
@@ -416,7 +418,7 @@ static void cmd_U(char** t, int nt) {
 int main(void) {
     char* line = NULL; size_t lcap = 0; ssize_t len;
     while ((len = getline(&line, &lcap, stdin)) > 0) {
-        char* t[12]; int nt = 0; char* sv = NULL; char* tok = strtok_r(line, " \n", &sv);
+        char* t[12] = {0}; int nt = 0; char* sv = NULL; char* tok = strtok_r(line, " \n", &sv);
         while (tok && nt < 12) { t[nt++] = tok; tok = strtok_r(NULL, " \n", &sv); }
         if (nt == 0) continue;
         if (t[0][0] == 'Q' && nt >= 8) cmd_Q(t);
